@@ -3430,6 +3430,9 @@ class SFTPClientFile:
 
                     next_offset = range_offset + range_length
                     next_length = end - next_offset
+
+                    if next_length <= 0:
+                        break
                 else: # pragma: no cover
                     break
 
